@@ -1498,12 +1498,15 @@ def evaluate__serialize(self: XPathFunction, context: ta.ContextType = None) -> 
     method_ = kwargs.get('method', 'xml')
     if method_ in ('xml', 'html', 'text'):
         etree_module = context.etree
+        # The default namespace of the static context (empty prefix) is not a prefix declaration
         if context.namespaces:
             for pfx, uri in context.namespaces.items():
-                etree_module.register_namespace(pfx, uri)
+                if pfx:
+                    etree_module.register_namespace(pfx, uri)
         else:
             for pfx, uri in self.parser.namespaces.items():
-                etree_module.register_namespace(pfx, uri)
+                if pfx:
+                    etree_module.register_namespace(pfx, uri)
 
         return serialize_to_xml(self[0].select(context), etree_module, **kwargs)
 
